@@ -401,7 +401,9 @@ void GC_Mark(struct GC* gc) {
     : (void(*)(struct GC* gc))(NULL);
   
   /* Mark Stack */
+  CELLO_VERIF_YIELD(20);
   mark_stack(gc);
+  CELLO_VERIF_YIELD(21);
   
 }
 
